@@ -81,18 +81,19 @@ Proof. intros H. unfold lookup_fs, with_file. cbn [w_fs lookup]. rewrite (beq_ne
 
 Lemma open_file_is w p data : file_is w p data -> open_file w p = Some (OData data NoFault).
 Proof.
-  intros [Hne [Hl Hf]]. unfold open_file. destruct p as [|c p]; [congruence|].
+  intros [Hne [Hnd [Hl Hf]]]. unfold open_file. rewrite (beq_neq p dev_null Hnd).
+  destruct p as [|c p]; [congruence|].
   rewrite Hl, Hf. reflexivity.
 Qed.
 
 Lemma file_is_with_file w p data data' : file_is w p data -> file_is (with_file w p data') p data'.
 Proof.
-  intros [Hne [Hl Hf]]. split; [exact Hne|]. split; [apply lookup_fs_with_file_same | exact Hf].
+  intros [Hne [Hnd [Hl Hf]]]. split; [exact Hne|]. split; [exact Hnd|]. split; [apply lookup_fs_with_file_same | exact Hf].
 Qed.
 
 Lemma open_file_with_file_other w p data q : q <> p -> open_file (with_file w p data) q = open_file w q.
 Proof.
-  intros H. unfold open_file. destruct q as [|c q]; [reflexivity|].
+  intros H. unfold open_file. destruct (beq q dev_null); [reflexivity|]. destruct q as [|c q]; [reflexivity|].
   rewrite (lookup_fs_with_file_other w p data (c :: q) H). reflexivity.
 Qed.
 
